@@ -18,8 +18,9 @@ class Harness:
     name = 'K8.collect_garbage'
     mode = 'U'
 
-    def __init__(self, N=4, L=2, roots=0, nondet=True, ce=1):
+    def __init__(self, N=4, L=2, roots=0, nondet=True, ce=1, shutdown=False):
         self.N, self.L, self.roots, self.nondet, self.ce = N, L, roots, nondet, ce
+        self.shutdown = shutdown        # the manager's shutdown check `BDD.__del__` (C08)
 
     def install(self):
         self.B = base.import_dd('dd.bdd')
@@ -45,13 +46,21 @@ class Harness:
 
         def extract(model):
             case = m.extract(model)
-            case['args'] = dict(roots=[base.ev_int(model, r) for r in rts] if self.roots else None)
+            case['args'] = dict(roots=[base.ev_int(model, r) for r in rts] if self.roots else None,
+                                shutdown=self.shutdown)
             case['harness'] = 'k8_gc'
             return case
 
+        if self.shutdown:
+            # all handles are gone: only the terminal's own reference is left
+            c.assume(z3.Select(ext, 1) == 1)
+            for k in m.ids[1:]:
+                c.assume(z3.Select(ext, k) == 0)
         exc = None
         try:
-            if self.roots:
+            if self.shutdown:
+                self.B.BDD.__del__(bdd)
+            elif self.roots:
                 bdd.collect_garbage([SymInt(r) for r in rts])
             else:
                 bdd.collect_garbage()
@@ -59,8 +68,16 @@ class Harness:
             exc = e
         m.read_post()
         if exc is not None:
-            res = base.discharge([Goal('collection_never_raises', z3.BoolVal(False))], [], extract)
+            res = base.discharge([Goal('shutdown_check_passes' if self.shutdown else 'collection_never_raises',
+                                       z3.BoolVal(False))], [], extract)
             return dict(outcome='raised:' + type(exc).__name__, goals=res)
+        if self.shutdown:
+            goals = [Goal('only_the_terminal_remains', z3.And(
+                [z3.Not(z3.Select(st.P, k)) for k in m.ids[1:]] + [z3.Select(st.P, 1)])),
+                Goal('no_decref_warning', z3.BoolVal(not self.wrec.msgs))]
+            res = base.discharge(goals, [], extract)
+            return dict(outcome='shutdown', goals=res, witness=base.witness(extract),
+                        expect=dict(outcome='returned', remaining=[1]))
         keep, unchanged, live = [], [], []
         for k in m.ids:
             p0, p1 = z3.Select(st0.P, k), z3.Select(st.P, k)
@@ -116,6 +133,17 @@ def replay(case):
         return dict(violates=False, invalid_pre=True, detail=str(bad0[:3]))
     bdd = concrete.install(case, B)
     roots = case['args']['roots']
+    if case['args'].get('shutdown'):
+        try:
+            B.BDD.__del__(bdd)
+        except Exception as e:
+            return dict(violates=True, key='shutdown/check-fails',
+                        detail=f'BDD.__del__ with no external references raised {type(e).__name__}',
+                        observed=dict(outcome='raised'))
+        if set(bdd._succ) != {1}:
+            return dict(violates=True, key='shutdown/nodes-remain', detail=str(sorted(bdd._succ)),
+                        observed=dict(outcome='returned', remaining=sorted(bdd._succ)))
+        return dict(violates=False, detail='ok', observed=dict(outcome='returned', remaining=[1]))
     old = dict(bdd._succ)
     held = [k for k, e in ext.items() if e > 0 and k in old]
     must = reachable(old, held + [1])
